@@ -2,11 +2,12 @@ package main
 
 import (
 	"encoding/json"
-	"strconv"
 	"fmt"
 	"math"
 	"math/rand"
+	"strconv"
 	"strings"
+	"unicode/utf8"
 
 	"github.com/theparanoids/ysshra/keyid"
 	"verifharness/core"
@@ -148,6 +149,10 @@ func runC05(c *core.Ctx) {
 				return
 			}
 			enc = "(Some " + t + ")"
+			if utf8.ValidString(out) {
+				// text level: the Gallina printer must reproduce the encoder's text from the tree
+				c.Case(class+"/text", core.GApp("CPrint", t, core.GStr(out)), map[string]interface{}{"op": "print", "text": out})
+			}
 			if berr == nil {
 				dec = "(Some " + gKeyID(back) + ")"
 			}
@@ -169,6 +174,10 @@ func runC05(c *core.Ctx) {
 		}
 		c.Case(class, core.GApp("CDecode", core.GOpt(ok, tree), dec),
 			map[string]interface{}{"op": "Unmarshal", "text": text, "err": fmt.Sprint(err)})
+		if utf8.ValidString(text) && len(text) < 4000 {
+			// text level: the Gallina parser must read the text as encoding/json's tokenizer does
+			c.Case(class+"/text", core.GApp("CText", core.GStr(text), core.GOpt(ok, tree)), map[string]interface{}{"op": "tokenise", "text": text})
+		}
 	}
 
 	// (0) corpus / regression seeds
